@@ -54,16 +54,44 @@ def check(ctx):
 # ---------------------------------------------------------------------------------------------
 
 
+def _is_regex_call(c, mod):
+    """re.match/fullmatch/search/findall(PATTERN, x)  or  COMPILED.match/fullmatch/search/findall(x)."""
+    if not isinstance(c, ast.Call):
+        return False
+    fn = norm(c.func)
+    if fn in ("re.match", "re.fullmatch", "re.findall", "re.search"):
+        return True
+    if isinstance(c.func, ast.Attribute) and c.func.attr in ("match", "fullmatch", "findall", "search") and isinstance(c.func.value, ast.Name):
+        d = mod.consts.get(c.func.value.id)
+        return isinstance(d, ast.Call) and norm(d.func) == "re.compile"
+    return False
+
+
 def tag_loop(ctx, rule):
+    """The loop over the optional fields of a GAF line: in GAF.parse_gaf_line, or in a helper it calls.
+    Returns (function containing the loop, loop).  The function object carries .optional_arg: the expression the
+    caller passes for the iterated parameter (None when the loop is in the parser itself)."""
     repo = ctx.repo
     pf = repo.func("gaftools.gaf", "GAF.parse_gaf_line", rule)
-    pf._repo_modules = repo.modules
     ctx.analysed_func(pf)
-    loops = [n for n in pf.node.body if isinstance(n, ast.For)]
-    loops = [l for l in loops if any(isinstance(c, ast.Call) and norm(c.func).startswith("re.") for c in ast.walk(l))]
-    if len(loops) != 1:
-        raise AnalysisError(rule, pf.where(), f"expected one loop over the optional fields using re.*, found {len(loops)}")
-    return pf, loops[0]
+    cands = []
+    for f in [pf] + [h for c in walk_own(pf.node) if isinstance(c, ast.Call) for h in [repo.resolve_call(pf, c)] if h is not None and h.module is pf.module and h is not pf]:
+        for n in f.node.body:
+            if isinstance(n, ast.For) and any(_is_regex_call(c, f.module) for c in ast.walk(n)):
+                cands.append((f, n))
+    if len(cands) != 1:
+        raise AnalysisError(rule, pf.where(), f"expected one loop over the optional fields using a regular expression, found {len(cands)}")
+    f, loop = cands[0]
+    f._repo_modules = repo.modules
+    f.optional_arg = None
+    if f is not pf:
+        ctx.analysed_func(f)
+        for c in walk_own(pf.node):
+            if isinstance(c, ast.Call) and repo.resolve_call(pf, c) is f and isinstance(loop.iter, ast.Name):
+                params = f.params[1:] if (f.cls and not any(norm(d) == "staticmethod" for d in f.node.decorator_list)) else f.params
+                if loop.iter.id in params and params.index(loop.iter.id) < len(c.args):
+                    f.optional_arg = c.args[params.index(loop.iter.id)]
+    return f, loop
 
 
 def tag_regex_info(pf, loop, rule):
@@ -75,15 +103,16 @@ def tag_regex_info(pf, loop, rule):
             if isinstance(c.args[0], ast.Constant):
                 pat = c.args[0].value
             elif isinstance(c.args[0], (ast.Name, ast.Attribute)):
-                from .c16 import lookup_const, fold_str
-
-                class _C:  # minimal context for lookup_const
-                    pass
-
-                d = _lookup_module_const(pf, norm(c.args[0]))
-                pat = d
+                pat = _lookup_module_const(pf, norm(c.args[0]))
             if isinstance(pat, str):
                 info["patterns"].append((norm(c.func), pat, c))
+        elif isinstance(c, ast.Call) and _is_regex_call(c, pf.module) and c.args:
+            d = pf.module.consts.get(c.func.value.id)
+            if d.args and isinstance(d.args[0], ast.Constant) and isinstance(d.args[0].value, str):
+                # normalise to the re.<fn>(pattern, subject) shape the rules look at
+                shim = ast.Call(func=ast.Attribute(value=ast.Name(id="re", ctx=ast.Load()), attr=c.func.attr, ctx=ast.Load()), args=[d.args[0]] + list(c.args), keywords=[])
+                ast.copy_location(shim, c)
+                info["patterns"].append(("re." + c.func.attr, d.args[0].value, shim))
         if isinstance(c, ast.Call) and isinstance(c.func, ast.Attribute) and c.func.attr in ("split", "rsplit", "partition") and c.args and const_value(c.args[0]) == ":" and norm(c.func.value) == norm(loop.target):
             info["splits"].append(c)
     if not info["patterns"]:
@@ -193,7 +222,7 @@ def r19_1_parser(ctx):
     paths = enum_paths(loop.body, rule="R19.1", where=pf.where(loop))
     match_vars = set()
     for st in walk_stmts(loop.body):
-        if isinstance(st, ast.Assign) and isinstance(st.value, ast.Call) and norm(st.value.func).startswith("re."):
+        if isinstance(st, ast.Assign) and _is_regex_call(st.value, pf.module):
             match_vars.add(norm(st.targets[0]))
 
     def atom_of(e):
@@ -521,22 +550,40 @@ OP_LABEL = {"D": "deletion", "I": "insertion", "X": "substitution", "=": "match"
 
 def r19_5(ctx, m):
     f = m.f
-    loops = [n for n in ast.walk(m.loop) if isinstance(n, ast.For) and n is not m.loop and isinstance(n.iter, ast.Call) and norm(n.iter.func) == "range"]
-    if not loops:
-        raise AnalysisError("R19.5", f.where(m.loop), "cannot find the stride-2 loop over the grouped CIGAR")
-    cl = loops[0]
-    args = cl.iter.args
-    lst = None
-    ok_range = False
-    if len(args) == 3 and const_value(args[0]) == 0 and const_value(args[2]) == 2:
-        mm = re.fullmatch(r"len\((\w+)\)( - 1)?", norm(args[1]))
-        if mm:
-            lst = mm.group(1)
-            ok_range = True
-    ctx.check(ok_range, "R19.5", f.where(cl), "the (length, operation) pairs are walked with stride 2 over the whole grouped CIGAR", key_of(f, f"cigar-range:{norm(cl.iter)}"), range=norm(cl.iter))
-    if not ok_range:
-        return
-    iv = norm(cl.target)
+    cl = None
+    lst = len_expr = op_expr = None
+    for n in ast.walk(m.loop):
+        if not (isinstance(n, ast.For) and n is not m.loop and isinstance(n.iter, ast.Call)):
+            continue
+        fn = norm(n.iter.func)
+        args = n.iter.args
+        if fn == "range":
+            ok_range = False
+            if len(args) == 3 and const_value(args[0]) == 0 and const_value(args[2]) == 2:
+                mm = re.fullmatch(r"len\((\w+)\)( - 1)?", norm(args[1]))
+                if mm:
+                    cl, lst = n, mm.group(1)
+                    iv = norm(n.target)
+                    len_expr, op_expr = f"{lst}[{iv}]", f"{lst}[{iv} + 1]"
+                    ok_range = True
+            if cl is None:
+                cl = n
+            ctx.check(ok_range, "R19.5", f.where(n), "the (length, operation) pairs are walked with stride 2 over the whole grouped CIGAR", key_of(f, f"cigar-range:{norm(n.iter)}"), range=norm(n.iter))
+            if not ok_range:
+                return
+        elif fn == "zip" and len(args) == 2 and isinstance(n.target, ast.Tuple) and len(n.target.elts) == 2:
+            a0, a1 = norm(args[0]), norm(args[1])
+            mm0 = re.fullmatch(r"(\w+)\[(?:0)?::2\]", a0)
+            mm1 = re.fullmatch(r"(\w+)\[1::2\]", a1)
+            ok_zip = bool(mm0 and mm1 and mm0.group(1) == mm1.group(1))
+            cl = n
+            ctx.check(ok_zip, "R19.5", f.where(n), "the (length, operation) pairs are the even / odd elements of the whole grouped CIGAR (zip(x[0::2], x[1::2]))", key_of(f, f"cigar-zip:{norm(n.iter)}"), iter=norm(n.iter))
+            if not ok_zip:
+                return
+            lst = mm0.group(1)
+            len_expr, op_expr = norm(n.target.elts[0]), norm(n.target.elts[1])
+    if cl is None or lst is None:
+        raise AnalysisError("R19.5", f.where(m.loop), "cannot find the loop over the (length, operation) pairs of the grouped CIGAR")
     # grouped list definition: groupby on str.isdigit
     defs = [st for st in walk_stmts(m.loop.body) if isinstance(st, ast.Assign) and norm(st.targets[0]) == lst]
     ok_def = len(defs) == 1 and "groupby" in norm(defs[0].value) and "isdigit" in norm(defs[0].value) and f"{m.rec}.cigar" in (norm(defs[0].value) + " ".join(norm(s.value) for s in walk_stmts(m.loop.body) if isinstance(s, ast.Assign) and norm(s.targets[0]) in names_in(defs[0].value)))
@@ -547,10 +594,10 @@ def r19_5(ctx, m):
     while cur is not None:
         t = cur.test
         op = None
-        if isinstance(t, ast.Compare) and len(t.ops) == 1 and isinstance(t.ops[0], ast.Eq) and norm(t.left) == f"{lst}[{iv} + 1]":
+        if isinstance(t, ast.Compare) and len(t.ops) == 1 and isinstance(t.ops[0], ast.Eq) and norm(t.left) == op_expr:
             op = const_value(t.comparators[0])
         if op is None:
-            ctx.violated("R19.5", f.where(cur), f"branch test `{norm(t)}` does not compare the operation element {lst}[{iv} + 1] with an operation letter", key_of(f, f"cigar-branch:{norm(t)}"))
+            ctx.violated("R19.5", f.where(cur), f"branch test `{norm(t)}` does not compare the operation element {op_expr} with an operation letter", key_of(f, f"cigar-branch:{norm(t)}"))
             break
         incs = [s for s in cur.body if isinstance(s, ast.AugAssign) and isinstance(s.op, ast.Add) and const_value(s.value) == 1]
         if len(incs) == 1:
@@ -558,12 +605,12 @@ def r19_5(ctx, m):
         for s in cur.body:
             if isinstance(s, ast.If):
                 tt = s.test
-                ok_len = isinstance(tt, ast.Compare) and norm(tt.left) == f"int({lst}[{iv}])" and isinstance(tt.ops[0], (ast.GtE, ast.Gt)) and isinstance(const_value(tt.comparators[0]), int)
+                ok_len = isinstance(tt, ast.Compare) and norm(tt.left) == f"int({len_expr})" and isinstance(tt.ops[0], (ast.GtE, ast.Gt)) and isinstance(const_value(tt.comparators[0]), int)
                 li = [x for x in s.body if isinstance(x, ast.AugAssign) and const_value(x.value) == 1]
                 if ok_len and len(li) == 1:
                     larges[op] = (norm(li[0].target), norm(tt))
                 else:
-                    ctx.violated("R19.5", f.where(s), f"the 'large' threshold for {op!r} does not compare the length element int({lst}[{iv}])", key_of(f, f"cigar-large:{op}:{norm(tt)}"))
+                    ctx.violated("R19.5", f.where(s), f"the 'large' threshold for {op!r} does not compare the length element int({len_expr})", key_of(f, f"cigar-large:{op}:{norm(tt)}"))
         if len(cur.orelse) == 1 and isinstance(cur.orelse[0], ast.If):
             cur = cur.orelse[0]
         else:
@@ -651,7 +698,7 @@ def r19_7(ctx, m):
     ctx.require_count("R19.7", n, 2, f.where(), "averages over the per-read table")
     # the figures printed as averages are those accumulators
     # (b) run loop reached on every primary path when cigar statistics are requested
-    run_loops = [n_ for n_ in ast.walk(m.loop) if isinstance(n_, ast.For) and n_ is not m.loop and isinstance(n_.iter, ast.Call) and norm(n_.iter.func) == "range"]
+    run_loops = [n_ for n_ in ast.walk(m.loop) if isinstance(n_, ast.For) and n_ is not m.loop and isinstance(n_.iter, ast.Call) and norm(n_.iter.func) in ("range", "zip")]
     if run_loops:
         rl = run_loops[0]
         flag = None
